@@ -22,6 +22,9 @@ type C04Params struct {
 	Type   int    `json:"type"` // handshake type altered
 	Mut    string `json:"mut"`
 	Arg    int    `json:"arg"`
+	// FirstOnly: only the cookie-less first ClientHello is rewritten (it is outside the
+	// Finished hash; the second ClientHello must equal it, so the server must notice)
+	FirstOnly bool `json:"first_only,omitempty"`
 }
 
 type c04Target struct {
@@ -81,6 +84,9 @@ func c04Gen(r *rand.Rand, tier string, idx int) any {
 		p.Mut = []string{"body-bit", "body-bit", "append-byte", "last-byte"}[r.IntN(4)]
 	}
 	p.Arg = r.IntN(1 << 20)
+	if p.Type == HTClientHello && p.HV && r.IntN(3) == 0 {
+		p.FirstOnly = true
+	}
 
 	return p
 }
@@ -320,6 +326,7 @@ func c04Run(rc *RunCtx, params any) {
 	}
 	defer pair.Teardown()
 	altered, fragmented, noop := 0, 0, 0
+	var lastCH []byte
 	n.Rewrite = func(em *Emission) []byte {
 		if em.Ep != p.From {
 			return em.Data
@@ -339,12 +346,22 @@ func c04Run(rc *RunCtx, params any) {
 			for _, f := range r.Hs {
 				fb := f.Body
 				total, off := int(f.Length), int(f.Off)
-				if int(f.Type) == p.Type {
+				skip := false
+				if p.FirstOnly && int(f.Type) == HTClientHello && f.FLen == f.Length {
+					if h, herr := ParseClientHello(f.Body); herr == nil {
+						_, has13Cookie := h.Ext(ExtCookie13)
+						skip = len(h.Cookie) > 0 || has13Cookie
+					}
+				}
+				if int(f.Type) == p.Type && !skip {
 					if f.FLen != f.Length || f.Off != 0 {
 						fragmented++
 					} else if sh, herr := ParseServerHello(f.Body); p.Type == HTServerHello && herr == nil && sh.IsHRR && p.Mut != "body-bit" && false {
 						_ = sh
 					} else {
+						if p.Type == HTClientHello {
+							lastCH = f.Body
+						}
 						nb := c04Mutate(f.Body, p.Type, p.Mut, p.Arg)
 						if bytes.Equal(nb, f.Body) {
 							noop++
@@ -396,7 +413,19 @@ func c04Run(rc *RunCtx, params any) {
 		} else if sOK && cOK {
 			who = "both"
 		}
-		rc.Violate(fmt.Sprintf("completed-despite-tampering:v%d:%s:%s:%s:ems%d:resume=%v", p.Ver, who, HsName(byte(p.Type)), p.Mut, p.EMS, p.Resume),
+		scope := ""
+		if p.FirstOnly {
+			scope = ":first-hello-only"
+		}
+		mutName := p.Mut
+		if p.Mut == "body-bit" && p.Type == HTClientHello && lastCH != nil {
+			if parts, okp := locateCH(lastCH); okp && (p.Arg%(8*len(lastCH)))/8 >= parts.extOff {
+				mutName = "body-bit@ext"
+			} else {
+				mutName = "body-bit@fixed"
+			}
+		}
+		rc.Violate(fmt.Sprintf("completed-despite-tampering:v%d:%s:%s:%s:ems%d:resume=%v%s", p.Ver, who, HsName(byte(p.Type)), mutName, p.EMS, p.Resume, scope),
 			"every copy of the %s sent by %s was rewritten in transit (%s, arg %d; %d copies altered), yet %s reported a successful handshake (kx=%s, EMS policy %d, resumed=%v, hello-verify=%v)", HsName(byte(p.Type)), p.From, p.Mut, p.Arg, altered, who, p.Kx, p.EMS, p.Resume, p.HV)
 	}
 }
